@@ -265,9 +265,13 @@ fn classify2(cfg: &Cfg, r: &ReqLit) -> (Class, String) {
     }
     if keys.len() > 1 {
         note(&mut silent, "key=duplicate".into());
-    } else if !key_well_formed(keys[0]) {
-        note(&mut silent, "key=malformed".into());
+    } else if keys[0].is_empty() {
+        // (a header line without a value: whether that is "a Sec-WebSocket-Key" the statement does not say)
+        note(&mut silent, "key=empty".into());
     }
+    // a key that is present and not the base64 of 16 octets is still "a Sec-WebSocket-Key": the statement asks for its
+    // presence, not for its shape (and the accept hash is defined over its octets whatever they are)
+    let _ = key_well_formed;
     // the four compared headers: case-insensitive equality
     for (name, want) in [("connection", "upgrade"), ("upgrade", "websocket"), ("sec-websocket-version", "13"), ("sec-websocket-protocol", WANT_PROTOCOL)] {
         let vals = r.values(name);
@@ -870,6 +874,8 @@ fn dims() -> Vec<Dim> {
                 v("other", &[KEY_OTHER], true),
                 v("empty", &[""], false),
                 v("malformed", &["not a key"], false),
+                v("short-base64", &["c2hvcnQ="], true),
+                v("opaque-token", &["x"], false),
                 // octets outside visible ASCII (obs-text) are legal in a header value; the accept hash is over the octets
                 v("non-ascii", &["dGhlIHNhbXBsZSBub25jZQ=\u{e9}"], false),
                 v("duplicate", &[KEY_SAMPLE, KEY_OTHER], false),
